@@ -9,6 +9,7 @@ import (
 	"net"
 	"os"
 	"reflect"
+	"runtime"
 	"sort"
 	"strings"
 	"sync/atomic"
@@ -83,8 +84,16 @@ var sloaderKeychain interface {
 	Add(k config.Keychain) func(context.Context, string) ([]byte, error)
 }
 
+// sloaderAcctPath, when set, makes newSLoader use the accounter's DEFAULT sink (a file at that path) instead of the
+// recording sink (reset by the job that set it).
+var sloaderAcctPath string
+
 func newSLoader(ctx context.Context, lg *srvx.Logger, sink *sinkRec, kc *keychainRec, feed cfgSource) *loader.Loader {
-	acct, err := local.New(lg, local.SetLogSink(sink))
+	opt := local.SetLogSink(sink)
+	if sloaderAcctPath != "" {
+		opt = local.SetLogSinkDefault(sloaderAcctPath, "")
+	}
+	acct, err := local.New(lg, opt)
 	if err != nil {
 		panic(err)
 	}
@@ -211,6 +220,89 @@ func transcriptOf(key []byte, replies [][]byte) string {
 }
 
 // ---------------- C15 harnesses ----------------
+
+// c15H17: two connections send accounting records (small ones and one of the largest a request can carry) through the
+// accounter's default sink, a file, while the virtual clock passes several seconds: whatever the sink does on a timer
+// (flushing, re-opening, rotating) runs against the requests' writes. With /dev/full every write to the file fails.
+func c15H17(x *sx, e *rEnv, key []byte, path string) {
+	if path == "" {
+		f, err := os.CreateTemp("", "verif-acct-*")
+		if err != nil {
+			panic(err)
+		}
+		path = f.Name()
+		f.Close()
+		defer os.Remove(path)
+	}
+	sloaderAcctPath = path
+	defer func() { sloaderAcctPath = "" }()
+	// the accounter never closes its file: descriptors of earlier executions are closed by the files' finalizers
+	if h17Runs++; h17Runs%256 == 0 {
+		runtime.GC()
+	}
+	w := newSWorldR(e.Cfg, nil)
+	w.serve()
+	acct := func(sid, flags int, args []string) []byte {
+		typ, minor, body := rPkt{Kind: "acct", User: "own", Flags: flags, Args: args}.body()
+		return ref.Packet(ref.Header{Version: 0xc0 | minor, Type: typ, Seq: 1, Session: sidOf(sid)}, key, body)
+	}
+	var big []string
+	for i := 0; i < 255; i++ {
+		big = append(big, "k="+strings.Repeat("v", 253))
+	}
+	small := []string{"task_id=1", "cmd=show version"}
+	var r1, r2 [][]byte
+	c1 := w.W.NewConn(1, srvx.Addr4(10, 0, 0, 1, 1001))
+	c2 := w.W.NewConn(2, srvx.Addr4(10, 0, 0, 2, 1002))
+	sclient(w, c1, [][]byte{acct(10, 2, small)}, &r1, false)
+	vsyncrt.Quiesce()
+	vsyncrt.Advance(time.Second) // from here on a one-second timer is due
+	var wg vsyncrt.WaitGroup
+	wg.Add(2)
+	vsyncrt.Go(func() {
+		conn := c1
+		for _, p := range [][]byte{acct(11, 4, big), acct(12, 2, small)} {
+			conn.Feed(p)
+			r1 = append(r1, sawait(conn))
+		}
+		conn.FeedEOF()
+		wg.Done()
+	})
+	vsyncrt.Go(func() { sclient(w, c2, [][]byte{acct(20, 2, small), acct(21, 4, big)}, &r2, true); wg.Done() })
+	wg.Wait()
+	for i := 0; i < 2; i++ {
+		vsyncrt.Quiesce()
+		vsyncrt.Advance(time.Second)
+	}
+	vsyncrt.Quiesce()
+	w.shutdown()
+	if len(r1) != 3 || len(r2) != 2 {
+		x.fail("H17/functional", fmt.Sprintf("%d and %d replies for 3 and 2 accounting requests", len(r1), len(r2)))
+	}
+	for _, r := range append(append([][]byte{}, r1...), r2...) {
+		if st := replyStatus(key, r, 3); st != 1 && st != 2 {
+			x.fail("H17/functional", fmt.Sprintf("an accounting request was answered with status %#x (neither SUCCESS nor ERROR)", st))
+		}
+	}
+	x.obs = transcriptOf(key, r1) + transcriptOf(key, r2)
+}
+
+var h17Runs int
+
+// sawait collects one complete reply packet from conn (nil when the connection was closed first).
+func sawait(conn *vsyncrt.Conn) []byte {
+	var buf []byte
+	for {
+		b, closed := conn.Await(1)
+		buf = append(buf, b...)
+		if pk, rest := srvx.ParseStream(buf); len(pk) >= 1 && len(rest) == 0 {
+			return buf
+		}
+		if closed {
+			return nil
+		}
+	}
+}
 
 func c15Jobs() []sjob {
 	e := newREnv(defaultSecrets(), "")
@@ -433,6 +525,12 @@ func c15Jobs() []sjob {
 				x.fail("H16/stale-after-reload", fmt.Sprintf("a lookup made after the reload had completed was answered secret %q (err %v); the configuration in force says key-B", second, err))
 			}
 			x.obs = string(first) + string(second)
+		}},
+		{"H17-full accounting through the DEFAULT file sink while the clock ticks; the file is /dev/full (every write fails)", func(x *sx) {
+			c15H17(x, e, key, "/dev/full")
+		}},
+		{"H17-file accounting through the DEFAULT file sink while the clock ticks; the file is a scratch file", func(x *sx) {
+			c15H17(x, e, key, "")
 		}},
 		{"H15 two connections of a server whose secret provider hands out ONE key slice (with spare capacity) to every connection", func(x *sx) {
 			shared := append(make([]byte, 0, 64), "shared-secret-15"...)
@@ -1565,7 +1663,16 @@ type schedReplay struct {
 func jobsFor(id string, quick bool) []sjob {
 	switch id {
 	case "C15":
-		return c15Jobs()
+		jobs := c15Jobs()
+		if len(jobs) != len(c15Names) {
+			panic("c15Names is out of date")
+		}
+		for i, j := range jobs {
+			if j.name != c15Names[i] {
+				panic("c15Names is out of date: " + j.name)
+			}
+		}
+		return jobs
 	case "C17":
 		return c17Jobs(quick)
 	case "C09":
@@ -1578,8 +1685,113 @@ func jobsFor(id string, quick bool) []sjob {
 		return c03SchedJobs()
 	case "C08":
 		return c08SchedJobs(quick)
+	case "C20":
+		return c20SchedJobs()
 	}
 	return nil
+}
+
+// c20SchedJobs: the gauges under the scheduler and the VIRTUAL clock. One or two connections run a short script (sessions
+// that complete and sessions left waiting for a continuation), everything is torn down (clients close first, or the
+// server is cancelled first), and then an hour passes: whatever the server armed on a timer for its sessions or
+// connections fires. At every observation no gauge may be below its value at rest, and after the teardown - before
+// and after the hour - all four must be back at rest.
+func c20SchedJobs() []sjob {
+	key := []byte("c20-key")
+	type pk struct {
+		conn int
+		sid  uint32
+		seq  byte
+	}
+	// sessions with an even id leave a continuation registered (c08sHandler), odd ones complete with their reply
+	scripts := [][]pk{
+		{{0, 0x2000, 1}},
+		{{0, 0x2001, 1}},
+		{{0, 0x2000, 1}, {0, 0x2000, 3}},
+		{{0, 0x2000, 1}, {0, 0x2002, 1}},
+		{{0, 0x2000, 1}, {0, 0x2001, 1}},
+		{{0, 0x2000, 1}, {0, 0x2000, 2}}, // the second packet is refused: the connection ends with a session pending
+		{{0, 0x2000, 1}, {1, 0x2000, 1}},
+		{{0, 0x2000, 1}, {1, 0x2001, 1}},
+	}
+	var jobs []sjob
+	for _, fl := range []byte{0, 4} {
+		for _, sc := range scripts {
+			for _, teardown := range []string{"clients close, then cancel", "cancel with the connections open"} {
+				fl, sc, teardown := fl, sc, teardown
+				name := fmt.Sprintf("gauges: flags %#x,", fl)
+				for _, p := range sc {
+					name += fmt.Sprintf(" c%d:%x:%d", p.conn, p.sid, p.seq)
+				}
+				name += "; " + teardown + "; then an hour passes"
+				jobs = append(jobs, sjob{name, func(x *sx) {
+					rest := readGauges()
+					observe := func(when string, atRest bool) {
+						g := readGauges()
+						for _, n := range gaugeNames {
+							if g[n] < rest[n] {
+								x.fail("C20/below-rest:"+n, fmt.Sprintf("%s: gauge %s is %v, below its value at rest %v", when, n, g[n], rest[n]))
+							} else if atRest && g[n] != rest[n] {
+								x.fail("C20/not-at-rest:"+n, fmt.Sprintf("%s: gauge %s is %v, was %v before the connections", when, n, g[n], rest[n]))
+							}
+						}
+					}
+					st := &c08sState{next: 1}
+					w := newSWorldL(key, c08sHandler{st: st, id: 0})
+					w.serve()
+					conns := []*vsyncrt.Conn{w.W.NewConn(0, srvx.Addr4(10, 0, 0, 1, 2001)), w.W.NewConn(1, srvx.Addr4(10, 0, 0, 2, 2002))}
+					used := map[int]bool{}
+					for _, p := range sc {
+						c := conns[p.conn]
+						if !used[p.conn] {
+							used[p.conn] = true
+							w.L.Push(c)
+						}
+						m := ref.NewMsg()
+						m.N["authen_method"], m.N["priv_lvl"], m.N["authen_type"], m.N["authen_service"] = 6, 1, 1, 1
+						m.S["user"] = []byte("u")
+						m.Args = [][]byte{[]byte("service=shell"), []byte("cmd=show")}
+						body, _ := ref.AuthorRequest.Encode(m)
+						if !c.Closed() {
+							c.Feed(ref.Packet(ref.Header{Version: 0xc0, Type: 2, Seq: p.seq, Flags: fl, Session: p.sid}, key, body))
+						}
+						vsyncrt.Quiesce()
+						observe("after a packet was digested", false)
+					}
+					if teardown == "clients close, then cancel" {
+						for i, c := range conns {
+							if used[i] && !c.Closed() {
+								c.FeedEOF()
+							}
+						}
+						vsyncrt.Quiesce()
+						observe("after the clients closed", false)
+					}
+					if teardown == "cancel with the connections open" {
+						// the server notices the cancellation when the read deadline of each connection expires
+						w.cancel()
+						w.L.FireDeadline()
+						vsyncrt.Quiesce()
+						for i, c := range conns {
+							if used[i] && !c.Closed() {
+								c.FireDeadline()
+							}
+						}
+						vsyncrt.Quiesce()
+						observe("after the cancellation", false)
+					}
+					w.shutdown()
+					vsyncrt.Quiesce()
+					observe("after every connection closed and Serve returned", true)
+					vsyncrt.Advance(time.Hour)
+					vsyncrt.Quiesce()
+					observe("an hour after every connection closed and Serve returned", true)
+					x.obs = fmt.Sprint(len(st.log))
+				}})
+			}
+		}
+	}
+	return jobs
 }
 
 func raceLogSize() int64 {
@@ -1768,11 +1980,19 @@ func schedReplayOne(c *Ctx, raw json.RawMessage) {
 		if job.name != rep.Job {
 			continue
 		}
+		// The verdict comes from a run WITHOUT the operation log: formatting the log goes through fmt's sync.Pool, whose
+		// race annotations are happens-before edges between the threads of the program - with the log kept, a recorded
+		// race can go unreported. The log is printed from a second run of the same schedule.
 		x := &sx{}
 		before := raceLogSize()
-		res := vsyncrt.Run(rep.Choices, -1, true, func() { job.body(x) })
-		for _, l := range res.OpLog {
+		res := vsyncrt.Run(rep.Choices, -1, false, func() { job.body(x) })
+		after := raceLogSize()
+		lg := vsyncrt.Run(rep.Choices, -1, true, func() { job.body(&sx{}) })
+		for _, l := range lg.OpLog {
 			fmt.Println("  ", l)
+		}
+		if fmt.Sprint(lg.Trail) != fmt.Sprint(res.Trail) {
+			fmt.Println("   (the logged run took other choices than the judged one: ", lg.Trail, ")")
 		}
 		for _, v := range x.viol {
 			kv := strings.SplitN(v, "|", 2)
@@ -1784,8 +2004,12 @@ func schedReplayOne(c *Ctx, raw json.RawMessage) {
 		if res.Panic != "" {
 			c.R.Violate("panic: "+firstLine(res.Panic), res.Panic, rep)
 		}
-		if after := raceLogSize(); after > before {
-			keys, reports := raceKeys(raceLogTail(before))
+		if after > before {
+			tail := raceLogTail(before)
+			if int64(len(tail)) > after-before {
+				tail = tail[:after-before]
+			}
+			keys, reports := raceKeys(tail)
 			for i, k := range keys {
 				c.R.Violate(k, reports[i], rep)
 			}
